@@ -412,6 +412,9 @@ func (g *gctx) genStmt(d int, indent string) *gnode {
 			return gn(indent, "kz := ", pos("assigned", g.genA(1)), "@{|x| [x]}\n", indent, "kw := kz@{|y| y + [0]}\n", indent, "[kz, kw].p\n")
 		}
 	}
+	if g.bias == 'D' && g.r.Intn(2) == 0 {
+		return g.genDeferFunc(d, indent)
+	}
 	if g.bias == 'C' && g.r.Intn(3) != 0 {
 		g.use("conditional-nesting")
 		switch g.r.Intn(6) {
@@ -605,6 +608,58 @@ func (g *gctx) genFuncDef(d int, indent string) *gnode {
 	return n
 }
 
+// genDeferFunc: a function whose body mixes plain and guarded defers with statements that change what the guards
+// read, print, or leave the body early; the guard of `defer X if c` belongs to the statement (evaluated when the
+// statement is reached), the deferred expression to the exit
+func (g *gctx) genDeferFunc(d int, indent string) *gnode {
+	g.use("defer-func")
+	name := g.freshName('F')
+	n := gn(indent, name, " := {|a|\n", indent, "  flag := ", fmt.Sprint(g.r.Intn(2)), "\n")
+	k := 3 + g.r.Intn(5)
+	for i := 0; i < k; i++ {
+		in := indent + "  "
+		switch g.r.Intn(12) {
+		case 0, 1:
+			g.use("defer-guard-variable")
+			n.parts = append(n.parts, in, "defer t(", fmt.Sprint(10+i), ") if flag\n")
+		case 2:
+			g.use("defer-guard-effect")
+			n.parts = append(n.parts, in, "defer t(", fmt.Sprint(20+i), ") if t(", pos("condition", gn(fmt.Sprint(g.r.Intn(2)))), ")\n")
+		case 3:
+			g.use("defer-guard-raises")
+			n.parts = append(n.parts, in, "defer t(", fmt.Sprint(30+i), ") if (", pos("operand", gn("a")), " // (a - a)) \n")
+		case 4, 5:
+			n.parts = append(n.parts, in, "flag := ", fmt.Sprint(g.r.Intn(2)), "\n")
+		case 6:
+			n.parts = append(n.parts, in, "flag := a - ", fmt.Sprint(g.r.Intn(3)), "\n")
+		case 7:
+			g.use("defer")
+			n.parts = append(n.parts, in, "defer t(", pos("argument", gn(fmt.Sprint(40+i))), ")\n")
+		case 8:
+			g.use("defer-raises")
+			n.parts = append(n.parts, in, "defer t(", fmt.Sprint(50+i), " // (a - ", fmt.Sprint(g.r.Intn(3)), "))\n")
+		case 9:
+			n.parts = append(n.parts, in, "return t(", fmt.Sprint(60+i), ") if flag\n")
+		case 10:
+			n.parts = append(n.parts, in, "t(", fmt.Sprint(70+i), " // (a - ", fmt.Sprint(g.r.Intn(3)), "))\n")
+		default:
+			n.parts = append(n.parts, in, "t(", pos("argument", gn(fmt.Sprint(80+i))), ")\n")
+		}
+	}
+	n.parts = append(n.parts, indent, "  flag\n", indent, "}\n")
+	g.define(name, 'F', 1)
+	arg := fmt.Sprint(g.r.Intn(3))
+	switch g.r.Intn(3) {
+	case 0:
+		n.parts = append(n.parts, indent, name, "(", arg, ").p\n")
+	case 1:
+		n.parts = append(n.parts, indent, "(-1)~.{|z| ", name, "(", arg, ")}.p\n")
+	default:
+		n.parts = append(n.parts, indent, "[", name, "(", arg, "), ", pos("element", g.genI(1)), "].p\n")
+	}
+	return n
+}
+
 func (g *gctx) genIterStmt(d int, indent string) *gnode {
 	g.use("iterator")
 	if _, ok := g.pickVar('G'); !ok {
@@ -621,6 +676,19 @@ func (g *gctx) genIterStmt(d int, indent string) *gnode {
 			fmt.Sprintf("recur(i + 1)\n%s  yield i if i %% 3 != 2\n", indent),
 			fmt.Sprintf("recur(i + step)\n%s  yield t(i) if (i %% 4 != 1) && (i < %d)\n", indent, lim+6),
 		}[g.r.Intn(7)]
+		switch g.r.Intn(8) {
+		case 0:
+			// the literal closes over the scope of a function call: `new` is called from scopes that do not enclose it
+			g.use("iterator-factory")
+			return gn(indent, fmt.Sprintf("mkgen := {|lim, scale| <{|i, step: 1|\n%s  yield i * scale if i < lim\n%s  recur(i + step)\n%s}>}\n%sgen := mkgen(%d, %d)\n", indent, indent, indent, indent, lim, 1+g.r.Intn(3)))
+		case 1:
+			// an iterator made and stepped inside the body of another one (each has its own recur)
+			g.use("iterator-nested")
+			return gn(indent, fmt.Sprintf("gen := <{|i, step: 1|\n%s  inner := <{|j| yield j if j < i + 3; recur(j + 1)}>.new(i)\n%s  s := inner.next + inner.next\n%s  yield s if i < %d\n%s  recur(i + step)\n%s}>\n", indent, indent, indent, lim, indent, indent))
+		case 2:
+			g.use("iterator-nested")
+			return gn(indent, fmt.Sprintf("gen := <{|i, step: 1|\n%s  yield <{|j| yield j * 10 if j < 3; recur(j + 1)}>.new(i)@{|x| x} if i < %d\n%s  recur(i + step)\n%s}>\n", indent, lim, indent, indent))
+		}
 		if g.r.Intn(3) == 0 {
 			g.use("iterator-positions")
 			return gn(indent, "gen := <{|i, step: 1|\n", indent, "  yield ", pos("yielded", gn("i")), " if i < ", pos("operand", gn(fmt.Sprint(lim))), "\n",
